@@ -2,7 +2,8 @@
    Models: Gram/Run.v (the generated parser's main loop), Gram/Minimize.v (lalr/minimize.go and the finite
    quotient check).  Only statements, an example and Print Assumptions here. *)
 From Coq Require Import List ZArith Bool.
-From TM Require Import Gram.PTables Gram.Optimize Gram.Run Gram.Minimize Gram.Minimize_proofs Gram.MinNumber_proofs.
+From TM Require Import Gram.PTables Gram.Optimize Gram.Run Gram.Minimize Gram.Minimize_proofs Gram.MinNumber_proofs
+  Gram.MinRefine_proofs Gram.MinimizeWf Gram.MinPartition_proofs.
 Import ListNotations.
 Local Open Scope Z_scope.
 
@@ -89,3 +90,68 @@ Proof. exact number_all_nodup_prefix. Qed.
 Print Assumptions C06_number_all_spec.
 Print Assumptions C06_number_all_first_occurrence.
 Print Assumptions C06_number_all_distinct_prefix.
+
+(* (2) one round of refinePartitions only splits classes; hence (the old partition being a numbering onto
+   0..c-1) the class count never decreases *)
+Theorem C06_refine_once_only_splits : forall trans p, length trans = length p -> forall p' c', refine_once trans p = (p', c') ->
+  forall s s', 0 <= s < Z.of_nat (length p) -> 0 <= s' < Z.of_nat (length p) -> zn p' s = zn p' s' -> zn p s = zn p s'.
+Proof. exact refine_once_refines. Qed.
+
+Theorem C06_refine_once_count_monotone : forall trans p, length trans = length p -> forall p' c', refine_once trans p = (p', c') ->
+  forall c, (forall k, 0 <= k < c -> exists s, 0 <= s < Z.of_nat (length p) /\ zn p s = k) -> 0 <= c -> c <= c'.
+Proof. exact refine_once_count_mono. Qed.
+
+(* (3) the exit test: if the count did not grow, the OLD partition (the one refine returns) is a congruence: states
+   in one class have the same symbol list and their targets are in the same classes ([trans_sig]) *)
+Theorem C06_refine_once_exit_is_congruence : forall trans p, length trans = length p -> forall p' c', refine_once trans p = (p', c') ->
+  forall c, (forall k, 0 <= k < c -> exists s, 0 <= s < Z.of_nat (length p) /\ zn p s = k) -> 0 <= c -> c' = c ->
+  forall s s', 0 <= s < Z.of_nat (length p) -> 0 <= s' < Z.of_nat (length p) -> zn p s = zn p s' ->
+  trans_sig p (row trans s) = trans_sig p (row trans s').
+Proof. exact refine_once_stable. Qed.
+
+(* (2)+(3)+(4) for the loop: with enough fuel (fuel + count > number of states; minimize passes n+1) the RETURNED pair
+   is a numbering onto 0..c'-1 that refines the partition the loop started with, is stable, and still numbers the
+   first k states 0..k-1 if the initial one did *)
+Theorem C06_refine_loop : forall trans k pinit, k <= Z.of_nat (length trans) ->
+  forall fuel p c p' c', numbering trans p c -> refines trans p pinit -> front_id k p ->
+  Z.of_nat fuel + c > Z.of_nat (length trans) -> refine fuel trans p c = (p', c') ->
+  numbering trans p' c' /\ refines trans p' pinit /\ front_id k p' /\ stable trans p'.
+Proof. exact refine_spec. Qed.
+
+(* the partition computed inside [minimize] (final_partition is the let-bound pair (remap, cnt) of the model, see
+   minimize_unfold): the only assumptions are 0 <= NumStates and #inputs <= NumStates *)
+Theorem C06_minimize_partition : forall mi, 0 <= mi_num_states mi -> zlength (mi_final mi) <= mi_num_states mi ->
+  forall p0 c0, init_partition mi = (p0, c0) -> forall remap cnt, final_partition mi = (remap, cnt) ->
+  let trans := state_transitions (mi_enc mi) (mi_num_states mi) in
+  numbering trans remap cnt /\ refines trans remap p0 /\ front_id (zlength (mi_final mi)) remap /\ stable trans remap.
+Proof. exact final_partition_spec. Qed.
+
+(* merged states have the same action signature (same kind of action, equivalent rules, same Lalr row up to rule classes) *)
+Theorem C06_merged_states_same_signature : forall mi, 0 <= mi_num_states mi -> zlength (mi_final mi) <= mi_num_states mi ->
+  forall p0 c0, init_partition mi = (p0, c0) -> forall remap cnt, final_partition mi = (remap, cnt) ->
+  forall s s', 0 <= s < mi_num_states mi -> 0 <= s' < mi_num_states mi -> zn remap s = zn remap s' ->
+  state_signature (mi_enc mi) (rule_classes mi) (accept_on_entry mi) s =
+  state_signature (mi_enc mi) (rule_classes mi) (accept_on_entry mi) s'.
+Proof. exact remap_sig. Qed.
+
+(* (4) entry state i of input i keeps its number; pinned states (start states, final states of no-eoi inputs that are
+   not dead ends, final states reachable from a foreign start state) are never merged with any other state *)
+Theorem C06_entry_states_keep_numbers : forall mi, 0 <= mi_num_states mi -> zlength (mi_final mi) <= mi_num_states mi ->
+  forall p0 c0, init_partition mi = (p0, c0) -> forall remap cnt, final_partition mi = (remap, cnt) ->
+  forall i, 0 <= i < zlength (mi_final mi) -> zn remap i = i.
+Proof. exact remap_entry. Qed.
+
+Theorem C06_pinned_states_not_merged : forall mi, 0 <= mi_num_states mi -> zlength (mi_final mi) <= mi_num_states mi ->
+  forall p0 c0, init_partition mi = (p0, c0) -> forall remap cnt, final_partition mi = (remap, cnt) ->
+  forall s s', 0 <= s < mi_num_states mi -> 0 <= s' < mi_num_states mi -> In s (accept_on_entry mi) ->
+  zn remap s = zn remap s' -> s = s'.
+Proof. exact remap_pinned_singleton. Qed.
+
+Print Assumptions C06_refine_once_only_splits.
+Print Assumptions C06_refine_once_count_monotone.
+Print Assumptions C06_refine_once_exit_is_congruence.
+Print Assumptions C06_refine_loop.
+Print Assumptions C06_minimize_partition.
+Print Assumptions C06_merged_states_same_signature.
+Print Assumptions C06_entry_states_keep_numbers.
+Print Assumptions C06_pinned_states_not_merged.
